@@ -1737,7 +1737,7 @@ func resolveIndex(v, index reflect.Value, indexAsStr string) (reflect.Value, err
 			return reflect.Value{}, fmt.Errorf("can't use %s (%s) as key for map of type %s", indexAsStr, indexVal.Type(), v.Type())
 		}
 		index = indexVal.Convert(v.Type().Key()) // noop in most cases, but not expensive
-		indexVal = index                          // look up with the converted key: MapIndex panics on any other type
+		indexVal = index                         // look up with the converted key: MapIndex panics on any other type
 		return indirectEface(v.MapIndex(indexVal)), nil
 	case reflect.Ptr:
 		etyp := v.Type().Elem()
